@@ -53,6 +53,18 @@ _rel("C15", "c15", "c15", "frames with every nil pattern; FillNa with every kind
      "of floats (negative fractions, large), ints, text, mixtures with one odd cell first/middle/last; AddDatetimeIndex over two layouts")
 _rel("C19", "c19", "c19", "frames of 0-12 rows, offsets from {0, +-1, +-(n-1), +-n, +-(n+1), +-2n, MinInt64, MinInt64+1, MaxInt64, MaxInt64-1} and small random")
 
+PROPS["C04"] = {
+    "spec_key": "c04",
+    "runs": [{"engine": "grp", "mode": "", "n_quick": 4000, "n_thorough": 300000}],
+    "rule": "frames of 0-30 rows, 1-3 key columns over an alphabet built to collide under %v (1, int64 1, 1.0, \"1\", \"x|y\", \"x\", "
+            "\"y|z\", nil, \"<nil>\", true, \"true\"), single key or key list, missing keys at low rate; distinct = different protocol "
+            "line; non-trivial = at least 2 groups and at least one group with 2 rows",
+    "assumptions": ["key cells are scalars without NaN"], "trusted_base": STD,
+}
+PROPS["C05"] = dict(PROPS["C04"], spec_key="c05",
+    assumptions=["float rounding is not modelled: values are integers and small dyadics, on which float64 sums are exact; "
+                 "means are compared with relative tolerance 2^-40"])
+
 def _t(text, note, technique, ref):
     return {"text": text, "note": note, "technique": technique, "design_ref": ref}
 
